@@ -70,6 +70,8 @@ def harnesses(tier, seed):
                                  ('a[::-1] * b', ['a', 'b'], 3, 'plain'), ('a**2 + 3.0*a*b', ['a', 'b'], 3, 'diag'),
                                  ('a**2 + 3.0*a*b', ['a', 'b'], 3, 'coloring')]:
         jobs.append(dict(fn='h_expr', params=dict(expr=e, names=names, size=size, opts=opts)))
+    for e, names, size in [('a**2 + 3.0*a*b', ['a', 'b'], 3), ('a*a*b', ['a', 'b'], 2), ('a**3 - b**2', ['a', 'b'], 2)]:
+        jobs.append(dict(fn='h_expr', params=dict(expr=e, names=names, size=size, opts='plain', detect='zeros')))
     jobs.append(dict(fn='h_multi', params={}))
     return jobs
 
@@ -95,7 +97,7 @@ def _outshape(expr, names, size):
     return np.shape(eval(expr, {'__builtins__': {}}, dict(probe, sum=np.sum, dot=np.dot)))
 
 
-def h_expr(ctx, expr, names, size, opts):
+def h_expr(ctx, expr, names, size, opts, detect='generic'):
     _install(ctx)
     oshape = _outshape(expr, names, size)
     kw = {n: dict(val=np.ones(size)) for n in names}
@@ -126,7 +128,10 @@ def h_expr(ctx, expr, names, size, opts):
     # ExecComp detects the sparsity of array partials (and computes its coloring) from random perturbations at the point of its
     # first linearization; that detection is done here at a fixed generic point, as it would be in a user's first run
     for k, n in enumerate(names):
-        p.set_val(src(n), ctx.consts([0.37 + 0.61 * j - 0.9 * k for j in range(size)]))
+        if detect == 'zeros':       # a first linearization at the origin (where many partials vanish) must not lose entries
+            p.set_val(src(n), ctx.consts([0.0] * size))
+        else:
+            p.set_val(src(n), ctx.consts([0.37 + 0.61 * j - 0.9 * k for j in range(size)]))
     p.run_model()
     p.compute_totals(of=['c.y'], wrt=[src(n) for n in names])
     vals = {n: ctx.reals(n, size, -3, 3) for n in names}
